@@ -83,6 +83,27 @@ func init() {
 		Undecided:   []string{"power loss (no fsync requirement)", "two concurrent writers sharing one temporary name (the writers hold the store mutex: C19/C03)", "the YAML library's decoding of a complete file"},
 		Assumptions: []string{"crash model: a process kill preserves every completed system call; os.Rename and os.Remove are atomic; os.WriteFile may be interrupted after truncation or after any prefix", "names of live store files do not end in .tmp"},
 	}
+	amKinds := []string{"site", "post", "guarded"}
+	plans["C15"] = &Plan{
+		Items: []Item{
+			{Plugin: "sites", Func: "mobius.(*YAMLAccountManager).Create", Kinds: amKinds},
+			{Plugin: "sites", Func: "mobius.(*YAMLAccountManager).Update", Kinds: amKinds},
+			{Plugin: "sites", Func: "mobius.(*YAMLAccountManager).Delete", Kinds: amKinds},
+			{Plugin: "sites", Func: "mobius.(*YAMLAccountManager).Get", Kinds: amKinds},
+			{Plugin: "sites", Func: "hotline.(*ClientConn).Authenticate", Kinds: siteKinds},
+			{Plugin: "handler-contract", Func: "mobius.HandleDeleteUser", Kinds: []string{"site"}},
+			{Plugin: "handler-contract", Func: "mobius.HandleUpdateUser", Kinds: []string{"site"}},
+			{Plugin: "passwords", Func: "mobius.HandleSetUser"},
+			{Plugin: "passwords", Func: "mobius.HandleUpdateUser"},
+			{Func: "hotline.NewAccount"},
+		},
+		Decided: []string{
+			"YAMLAccountManager.Create / Update / Delete / Get are proved against the whole account table: Create adds exactly the account under its login, Update leaves exactly the new login holding the given name, password hash and privileges and removes a renamed-away login, Delete removes exactly the login, every other entry is unchanged; the marshalled bytes handed to the file writer are those of the account the table then holds (Login already renamed); success is reported only if the file operation succeeded; the table is only touched under the mutex",
+			"handlers: delete-user deletes the decoded login; batched update-user resolves the account of an entry from that entry's own fields; passwords are stored only as results of HashAndSalt",
+			"Authenticate: true iff the login is in the table and bcrypt accepts the password for its hash (C04)",
+		},
+		Undecided: []string{"YAML round trip on restart (library)", "the exact password rule cases (unchanged marker / absent) are not yet under contract"},
+	}
 	plans["C17"] = &Plan{
 		Items: []Item{
 			{Plugin: "sites", Func: "hotline.(*Server).handleNewConnection", Kinds: siteKinds},
